@@ -220,4 +220,13 @@ LEMMAS = [
                  "arc-of-digit-of-arc": "rarc(row, srow, rdigit(row, srow, j)) == j"},
         proof="pass",
     ),
+    dict(
+        name="window_shift",        # sliding a k-wide base-4 window one step: new value = (old value mod 4^(k-1)) * 4 + entering digit
+        params={"a": "arr", "d": "int", "lo": "int", "k": "int"},
+        requires={"k": "k >= 1", "digits": "forall(lambda q: 0 <= a[q] + d <= 3, lo, lo + k + 1)"},
+        ensures={"shift": "pv(a, d, lo + 1, lo + k + 1, 4) == (pv(a, d, lo, lo + k, 4) % ipow(4, k - 1)) * 4 + a[lo + k] + d"},
+        proof="ipow_mono(4, 0, k - 1)\npv_split(a, d, lo, lo + 1, lo + k, 4)\npv_bound(a, d, lo + 1, lo + k, 4)\n"
+              "assert pv(a, d, lo, lo + 1, 4) == a[lo] + d, 'head-digit'\n"
+              "mod_small(a[lo] + d, ipow(4, k - 1), pv(a, d, lo + 1, lo + k, 4))",
+    ),
 ]
